@@ -370,8 +370,8 @@ PROPS["C03"] = {
     "level_text": "Kani's built-in checks are the property (arithmetic overflow, slice/array bounds, unwrap/expect, unreachable, pointer validity): harnesses run with CBMC's bounds and pointer checks ON over fully symbolic header bytes, declared lengths one byte beyond the buffer with and without a filter in storage-header mode, and Message::as_bytes of a stored message that declares the largest 16-bit length. Returned messages are measured and their arguments pass valid().",
     "level_note": 'Panic-freedom of the remaining entry points on symbolic bytes comes from the C02d / C04 / C05 / C06 / C13 / C19 harnesses (same code, panics are checked there too, without the extra memory-safety checks).',
     "functions": ['parse::skip_storage_header', 'parse::dlt_consume_msg', 'parse::dlt_message', 'Argument::len', 'Argument::as_bytes', 'Argument::valid', 'Message::byte_len'],
-    "bounds": 'inputs <= 22 symbolic bytes for units; one corrupted byte per query in a 20-byte message; name length 0..65523',
-    "outside": 'inputs > 64 KiB; simultaneous corruption of several control bytes',
+    "bounds": 'inputs <= 22 symbolic bytes for units; whole-message shapes with corrupted declared lengths from the C04 catalogue; declared length 65535 for Message::as_bytes',
+    "outside": 'inputs > 64 KiB; simultaneous corruption of several control bytes; names / strings longer than 3 bytes in serialisation (the 65523-byte name harness c03_len_arith_longest_name is kept in the source but not registered: CBMC crashes on the 65 KiB vector)',
     "assumptions": COMMON_ASSUME + ['std::fmt::format stubbed (messages not compared)', 'core::str::from_utf8 replaced by a byte-wise model checked against std (c19_utf8_model_vs_std)', 'forward_to_next_storage_header replaced by its specification (first occurrence) in whole-message storage-mode harnesses; the real function is checked against that specification in C06', 'ids, names, units and string contents are literals in whole-message harnesses (whether a byte is NUL is control for the parser); arbitrary contents are decided in C19 / c02d'],
     "trusted_base": [],
     "harnesses": [H("c03::" + n, "quick", 900, mem_checks=True) for n in ["c03_skip_storage_header_any_bytes", "c03_consume_msg_any_htyp_len_full",
